@@ -269,17 +269,15 @@ func vL18Run(wk *vL18Worker, scn vL18Scenario) []map[string]interface{} {
 		ok := w.Code == http.StatusOK && json.Unmarshal(w.Body.Bytes(), &c) == nil
 		g.mu.Lock()
 		rel := make([]bool, 5)
-		relnl := make([]bool, 5) // the same relation against "what b sent, plus a final newline"
 		if ok {
 			for b, sent := range g.sent {
 				rel[b] = vC18Rel(sent, c.ManifestText, ids[b], b != 0)
-				relnl[b] = !strings.HasSuffix(sent, "\n") && vC18Rel(sent+"\n", c.ManifestText, ids[b], b != 0)
 			}
 		}
 		shape := vC18Shape(g.sent)
 		g.mu.Unlock()
 		ev := map[string]interface{}{"ev": "done", "ok": ok, "pdhOK": ok && vC18PDH(c.ManifestText) == want,
-			"rel": rel, "relnl": relnl, "shape": shape, "status": w.Code, "fellthrough": fellThrough}
+			"rel": rel, "shape": shape, "status": w.Code, "fellthrough": fellThrough}
 		if os.Getenv("VERIF_C18_DEBUG") != "" {
 			// replay aid: the concrete texts
 			g.mu.Lock()
